@@ -674,3 +674,54 @@ def c09_h(ctx):
     ctx.check(bool(acc), nuts, 'sub-tree proposal accepted with probability n_sub / n_ok',
               'rand() < float(n_sub) / n_ok', 'the sub-tree proposal is not accepted with '
               'probability n_sub / n_ok', fn=nuts, node=acc[0] if acc else nuts.node)
+
+
+@obligation('C09-i', 'T2 T6', 'a counter that can still hold its reset value 0 is never a divisor',
+            floor=1,
+            necessary='a division by a counter on a path from its reset without an increment '
+                      'raises ZeroDivisionError instead of returning the chain')
+def c09_i(ctx):
+    n = 0
+    for f in (ctx.fn(M + ':nuts'), ctx.fn(M + ':metropolis')):
+        ex = ctx.ex(f)
+        g = cfg_of(f)
+        zero_assigns = {}
+        for s in own_nodes(f.node):
+            if isinstance(s, ast.Assign) and len(s.targets) == 1 and \
+                    isinstance(s.targets[0], ast.Name) and \
+                    isinstance(s.value, ast.Constant) and s.value.value == 0 and \
+                    not isinstance(s.value.value, bool):
+                zero_assigns.setdefault(s.targets[0].id, []).append(s)
+        for d in own_nodes(f.node):
+            if not (isinstance(d, ast.BinOp) and isinstance(d.op, (ast.Div, ast.FloorDiv, ast.Mod))
+                    and isinstance(d.right, ast.Name) and d.right.id in zero_assigns):
+                continue
+            v = d.right.id
+            n += 1
+            stmt = d
+            while not isinstance(stmt, ast.stmt):
+                stmt = stmt._parent
+            # a dominating positivity fact makes the division safe
+            guarded = any(
+                (pol and match_any(t, ('0 < {}'.format(v), '{} != 0'.format(v),
+                                       '1 <= {}'.format(v))) is not None) or
+                (pol and t == ('name', v)) or
+                ((not pol) and match_any(t, ('{} == 0'.format(v), '{} <= 0'.format(v),
+                                             '{} < 1'.format(v))) is not None)
+                for (t, pol, _) in [(ex.raw(tast), pol, tast)
+                                    for (_t, pol, tast) in ctx.guards(f, stmt)])
+            if guarded:
+                ctx.ok(f, 'division by `{}` under a positivity guard'.format(v), src(d)[:60],
+                       fn=f, node=d)
+                continue
+            incs = [ctx.node(f, s) for s in own_nodes(f.node)
+                    if isinstance(s, ast.AugAssign) and isinstance(s.target, ast.Name) and
+                    s.target.id == v and isinstance(s.op, ast.Add)]
+            bad = [z for z in zero_assigns[v]
+                   if g.exists_path(ctx.node(f, z), ctx.node(f, stmt), avoiding=incs)]
+            ctx.check(not bad, f, 'division by `{}`'.format(v), src(d)[:60],
+                      '`{}` divides by `{}`, which still holds the 0 assigned at line {} on a path '
+                      'without an increment (e.g. the reset happens in the last iteration)'
+                      .format(src(d)[:60], v, bad[0].lineno if bad else 0), fn=f, node=d)
+    if n < 1:
+        ctx.undecided('expected at least one division by a counter in the samplers')
